@@ -118,6 +118,7 @@ func (c *c12) read(what, coll string, call func() string) {
 		return
 	}
 	window := c.hist[coll][i0:]
+	c.e.Outcome(what + "=" + got)
 	c.e.AtEnd(func() {
 		for _, s := range window {
 			if s == got {
@@ -138,10 +139,6 @@ func (c *c12) overlapSeen() bool {
 		return h.HasFailure("map-overlap")
 	}
 	return true
-}
-
-func (c *c12) readCount(what, coll string, call func() int) {
-	c.read(what, coll, func() string { return fmt.Sprintf("#%d", call()) })
 }
 
 // hist entries for counts: compare against sizes
@@ -171,6 +168,7 @@ func (c *c12) count(what, coll string, call func() int) {
 		return
 	}
 	window := c.hist[coll][i0:]
+	c.e.Outcome(fmt.Sprintf("%s=%d", what, got))
 	c.e.AtEnd(func() {
 		for _, s := range window {
 			if sizeOf(s) == got {
@@ -261,10 +259,12 @@ func (c *c12) finish() {
 		if c.w.Proxy.PlayerCount() != len(pl) {
 			c.e.Fail("wrong-count/final", "PlayerCount()=%d but Players() lists %d at quiescence", c.w.Proxy.PlayerCount(), len(pl))
 		}
+		var hs []string
 		for k, h := range c.hist {
-			o = append(o, fmt.Sprintf("%s:%d", k, len(h)))
+			hs = append(hs, fmt.Sprintf("%s:%d", k, len(h)))
 		}
-		sort.Strings(o[len(o)-len(c.hist):])
+		sort.Strings(hs)
+		o = append(o, hs...)
 		c.e.Outcome(strings.Join(o, " "))
 	})
 }
@@ -298,6 +298,7 @@ func c12Scenarios() []dualrun.Scenario {
 			c.finish()
 		}}
 	}
+	freeOnly := func(s dualrun.Scenario) dualrun.Scenario { s.FreeOnly = true; return s }
 	return []dualrun.Scenario{
 		mk("Players-vs-join", 2, 3, 150, 2000, false, []int{0, 1}, 0, map[string]body{
 			"r": func(c *c12) { c.players() },
@@ -315,17 +316,6 @@ func c12Scenarios() []dualrun.Scenario {
 				c.count("PlayerCount", "players", c.w.Proxy.PlayerCount)
 			},
 			"w": func(c *c12) { c.sess[1].login(); c.sess[1].disconnect() }}),
-		mk("DisconnectAll-alone", 2, 3, 150, 2000, false, []int{0, 1, 2}, 0, map[string]body{
-			"r": func(c *c12) { c.disconnectAll() }}),
-		mk("DisconnectAll-vs-join", 2, 2, 150, 2000, false, []int{0, 1}, 0, map[string]body{
-			"r": func(c *c12) { c.disconnectAll() },
-			"w": func(c *c12) { c.sess[2].login() }}),
-		mk("DisconnectAll-vs-leave", 2, 2, 150, 2000, false, []int{0, 1}, 0, map[string]body{
-			"r": func(c *c12) { c.disconnectAll() },
-			"w": func(c *c12) { c.sess[0].disconnect() }}),
-		mk("Players-vs-DisconnectAll", 2, 2, 150, 2000, false, []int{0, 1}, 0, map[string]body{
-			"r1": func(c *c12) { c.players() },
-			"r2": func(c *c12) { c.disconnectAll() }}),
 		mk("Servers-vs-register-unregister", 2, 3, 150, 2000, false, nil, 2, map[string]body{
 			"r": func(c *c12) { c.servers(); c.servers() },
 			"w": func(c *c12) {
@@ -364,6 +354,25 @@ func c12Scenarios() []dualrun.Scenario {
 				c.srv[1].players.add(c.sess[0].player())
 				c.srv[0].players.remove(c.sess[0].player())
 			}}),
+		// DisconnectAll spawns one goroutine per listed player in map-iteration order: the scheduler pass keeps
+		// the listed players symmetric (or at most one), the asymmetric mixes run in the free pass only.
+		mk("DisconnectAll-alone", 2, 3, 150, 2000, false, []int{0, 1, 2}, 0, map[string]body{
+			"r": func(c *c12) { c.disconnectAll() }}),
+		mk("DisconnectAll-vs-leave", 2, 3, 150, 2000, false, []int{0}, 0, map[string]body{
+			"r": func(c *c12) { c.disconnectAll() },
+			"w": func(c *c12) { c.sess[0].disconnect() }}),
+		mk("DisconnectAll-vs-first-join", 2, 3, 150, 2000, false, nil, 0, map[string]body{
+			"r": func(c *c12) { c.disconnectAll() },
+			"w": func(c *c12) { c.sess[0].login() }}),
+		mk("Players-vs-DisconnectAll", 2, 2, 150, 2000, false, []int{0, 1}, 0, map[string]body{
+			"r1": func(c *c12) { c.players() },
+			"r2": func(c *c12) { c.disconnectAll() }}),
+		freeOnly(mk("DisconnectAll-vs-join", 0, 0, 150, 2000, false, []int{0, 1}, 0, map[string]body{
+			"r": func(c *c12) { c.disconnectAll() },
+			"w": func(c *c12) { c.sess[2].login() }})),
+		freeOnly(mk("DisconnectAll-vs-leave-of-two", 0, 0, 150, 2000, false, []int{0, 1}, 0, map[string]body{
+			"r": func(c *c12) { c.disconnectAll() },
+			"w": func(c *c12) { c.sess[0].disconnect() }})),
 	}
 }
 
